@@ -13,7 +13,9 @@ BUILTIN_BASES = {
     "KeyError": ["LookupError", "Exception"], "IndexError": ["LookupError", "Exception"],
     "ValueError": ["Exception"], "TypeError": ["Exception"], "AttributeError": ["Exception"],
     "NotImplementedError": ["RuntimeError", "Exception"], "RuntimeError": ["Exception"],
-    "UnicodeDecodeError": ["UnicodeError", "ValueError", "Exception"], "OSError": ["Exception"],
+    "UnicodeDecodeError": ["UnicodeError", "ValueError", "Exception"], "UnicodeEncodeError": ["UnicodeError", "ValueError", "Exception"],
+    "UnicodeError": ["ValueError", "Exception"], "OverflowError": ["ArithmeticError", "Exception"], "RecursionError": ["RuntimeError", "Exception"],
+    "OSError": ["Exception"],
     "FileNotFoundError": ["OSError", "Exception"], "StopIteration": ["Exception"],
     "AssertionError": ["Exception"], "LookupError": ["Exception"], "Exception": [],
     "UnboundLocalError": ["NameError", "Exception"], "NameError": ["Exception"],
